@@ -53,6 +53,13 @@ def isPatExpr : Node → Bool
   | .patexpr _ _ => true
   | _ => false
 
+/-- what the grammar calls a pattern: a regular expression literal, then `+ /literal/` or `+ name` -/
+def isPatternConcat : Node → Bool
+  | .patlit _ _ => true
+  | .bin .plus l (.patlit _ _) _ => isPatternConcat l
+  | .bin .plus l (.id _ _ _) _ => isPatternConcat l
+  | _ => false
+
 def lhsNeedsParens (op : Op) (lhs : Node) : Bool :=
   match op with
   | .match | .notMatch => precedence lhs < precPrimary
@@ -61,7 +68,11 @@ def lhsNeedsParens (op : Op) (lhs : Node) : Bool :=
 
 def rhsNeedsParens (op : Op) (rhs : Node) : Bool :=
   match op with
-  | .match | .notMatch => if isPatExpr rhs then false else precedence rhs < precPrimary
+  | .match | .notMatch =>
+    match rhs with
+    -- a pattern is written as it is; an expression the checker wrapped keeps its parentheses
+    | .patexpr e _ => !isPatternConcat e && precedence e < precPrimary
+    | _ => precedence rhs < precPrimary
   | .assign | .addAssign => precedence rhs < precLogical
   | _ => if isPatLit rhs then false else precedence rhs ≤ opPrec op
 
